@@ -55,6 +55,10 @@ fn main() {
         };
         check_input(&PLax { open, quot }, loc)
     }));
+    // un-quotiented presentations of strict diagrams: as many pending pairs as repeated node occurrences
+    let xs = if quick { Spec::open(3, 1, 2, 2, 2, 2, 2) } else { Spec::open(3, 2, 2, 1, 2, 2, 2) };
+    let xu = xs.universe();
+    ctx.run_slice(Slice::new(format!("q-exploded[{}]", xs.name()), xu.count(), |i, loc| check_input(&PLax::exploded(&xu.get_open(i)), loc)));
     // histories: unify / quotient / new_node interleaved, from the empty diagram and from a diagram with a hyperedge and interfaces
     let b = Bounds { nodes: if quick { 4 } else { 5 }, edges: 1, pairs: 3, iface: 2, arity_s: 2, arity_t: 2, labels: 2, del_ids: 0, hyper_only: false, alphabet: Alphabet::Quotient };
     let start = PLax { open: POpen { nodes: vec![0, 0, 1], edges: vec![PEdge { label: 0, src: vec![0, 1], tgt: vec![2] }], s: vec![1, 0], t: vec![2, 0] }, quot: vec![] };
